@@ -16,13 +16,17 @@ CHECK = {
             "x {rfc1055_context_init + octet drivers, static initialiser + chunk drivers}; "
             "encoder sink answer scripts: every placement of one and of two deviations from 'takes everything' over the first 2n+3 sink calls, deviations "
             "{short write (1 of several), zero-length return to a write of several octets, -EAGAIN, -EINTR, -EIO}, octet and chunk sinks, plus a chunk sink that accepts up to the next "
-            "multiple of b octets for b = 1..8; "
-            "RFC1055_WORST_CASE/_CLASSIC/_WITHSOF for every n <= 1100 and for n = 2^k-2..2^k+2, k = 1..63, as size_t and uint64_t, plain and as an expression argument, as long as 2n+2 is a size_t; "
+            "multiple of b octets for b = 1..8 (oracle: a negative result is one of the codes the sink answered in that execution, any of them when it answered several; "
+            "after an -EIO answer success is not accepted; success = a complete encoding reached the sink); "
+            "RFC1055_WORST_CASE/_CLASSIC/_WITHSOF for every n <= 1100 and for n = 2^k-2..2^k+2, k = 1..62, as size_t and uint64_t, plain and as an expression argument, as long as n <= SIZE_MAX/4 "
+            "(lengths with headroom: a conservative macro wraps before 2n+2 does); "
             "the quantifier's 'random full-alphabet payloads up to 1 KiB' is replaced by exhaustive structured families "
             "(ESC followed by each of the 256 octet values, all 65536 octet pairs, constant fills of all 256 values, ramps from all 256 starts, class cycles of every length 0..1024); "
             "E-STATE: from every reachable context (the whole RFC1055Context image as the library leaves it on a zeroed block, whatever members it has) every stream up to the bound is decoded to exhaustion, "
             "fault-free and with one driver failure (source -EAGAIN, source -EIO, sink -EIO) at every call position followed by continued use; the contexts left behind by failures are search nodes too; "
-            "every reachable context is also handed to rfc1055_encode for every payload <= 2 (complete encoding in the context's mode) and to rfc1055_context_init in both modes (history of initialisations: the result is a node that is owed what an initial context is owed). "
+            "every reachable context is also handed to rfc1055_encode for every payload <= 2 (complete encoding in the context's mode) and to rfc1055_context_init in both modes (history of initialisations: the result is a node that is owed what an initial context is owed); "
+            "if more than 64 context images become known the image has no fixpoint within the cap (e.g. a context that counts what it decoded): no further image is recorded, the node in hand is finished, "
+            "no further node is expanded, the interruption pass covers the expanded nodes only, the cap is recorded (exhaustive = false) and the run ends within seconds. "
             "non-trivial = payload non-empty / stream has a leading frame or an invalid escape (by the stream, not by the decoder's answer) / stream owes at least one frame "
             "behind the garbage / the injected fault fired / the scripted sink gave at least one non-default answer. "
             "Outcome classes are functions of the enumerated input and of the driver script only (never of the implementation's answers), so that a misbehaving "
@@ -39,16 +43,20 @@ CHECK = {
         "source drivers answer 1 octet per call or a negative code. Zero-length returns are scripted only as a chunk sink's answer to a write of several octets "
         "(the endpoint contract: 'will cause the system to retry'); what a 0 from a single-octet source_get_octet/sink_put_octet call means to rfc1055 is not decided by the statement "
         "('error injection') and is left out; -EAGAIN/-EINTR from a sink during encode may be returned unchanged or retried (sink_put_chunk retries, sink_put_octet returns)",
+        "'sink errors are returned unchanged' with several sink errors in one encode execution (scripts with two deviations): returning any code the sink really answered satisfies the sentence "
+        "(an encoder may still try to close the frame after the first error and meet the second); a negative code the sink never answered, or success after an -EIO answer, is a violation",
         "an interrupted or failed *encode* is not resumed (the statement does not say how); whenever encode reports success under a sink script, what reached the sink must be a complete encoding",
         "resynchronisation oracle: classic = frame behind any delimiter; start-of-frame = all non-empty frames of a well-formed run but the first non-empty one; "
         "empty deliveries never count against the decoder; delivery of empty frames is demanded only from the initial context",
         "'never emits more octets than it consumed' is judged cumulatively over the decode calls on one stream (a decoder may hold octets back across calls), not per call",
         "RFC1055_WORST_CASE is not named by the statement: it is only required to be no smaller than the worst-case encoding length 2n+1 (2n+2) (a buffer or quota dimensioned with a smaller value would overflow), "
-        "for every length whose bound is representable in size_t, given as size_t/uint64_t (a 32-bit argument type wraps by the language's own rules and is not used beyond 2^16); a larger, conservative value is accepted",
+        "for every length n <= SIZE_MAX/4 (headroom of a factor two between the bound and SIZE_MAX: a conservative macro - 2n plus slack, 3n - wraps by the language's own rules before 2n+2 does, "
+        "so nothing is demanded closer to SIZE_MAX), given as size_t/uint64_t (a 32-bit argument type wraps by the language's own rules and is not used beyond 2^16); a larger, conservative value is accepted",
         "a context that started initial and decoded nothing but complete well-formed frames up to the end of its source (the -ENODATA that ends every decode loop) holds no part of a frame: "
         "E-STATE treats it as initial for the next source (frames arriving through consecutive sources, e.g. one source per received block); after any other history only the resynchronisation sentences are demanded",
         "rfc1055_context_init is applied to arbitrary memory (block filled with a5, or a used context); the static initialisers are used as initialisers of an object",
         "the decoder context is opaque apart from `flags` and `state` being readable: E-STATE nodes are whole context images produced by the library itself, 'initial' means octet-identical to what rfc1055_context_init produces",
+        "the E-STATE search assumes the context image reaches a fixpoint within 64 images (it does: 7); a context with members that never repeat is judged on the nodes expanded before the cap and reported as not exhaustive, never as a violation",
     ],
     "harnesses": [
         {
